@@ -112,6 +112,17 @@ pub fn build(case: &Value, var: &Variant) -> Built {
             entries.push((container, XEntry::InUse { off, gen: 0 }));
             max_id = max_id.max(container);
         }
+        // the free entries of a section form a linked list, as a writer that follows 7.5.4 produces it: each names the next
+        // free object number of the section, the last one names 0
+        {
+            let mut frees: Vec<u64> = entries.iter().filter_map(|(o, x)| if let XEntry::Free { .. } = x { if *o != 0 { Some(*o) } else { None } } else { None }).collect();
+            frees.sort();
+            for (o, x) in entries.iter_mut() {
+                if let XEntry::Free { next, .. } = x {
+                    *next = if *o == 0 { frees.first().copied().unwrap_or(0) } else { frees.iter().copied().find(|f| *f > *o).unwrap_or(0) };
+                }
+            }
+        }
         let extra = format!("/Root {} 0 R /Marker {}", cat, i);
         let off = if fmt == "table" {
             d.xref_table(&entries, max_id + 1, &extra, prev, var.split)
